@@ -30,6 +30,7 @@ import (
 func init() {
 	verifKinds["c03.assert"] = verifC03Assert
 	verifKinds["c03.run"] = verifC03Run
+	verifKinds["c03.rundef"] = verifC03RunDef
 	verifKinds["c03.canon"] = verifC03Canon
 	verifKinds["c03.merge"] = verifC03Merge
 }
@@ -484,17 +485,21 @@ func verifC03Run(args []vsx) (res vsx) {
 			panic(r)
 		}
 	}()
-	isRef := args[0].boolean()
-	def := args[1]
+	return c03RunOnce(args[0].boolean(), args[1], args[2], args[3])
+}
+
+// one test case (definition def, expected result) through the real runTestCasesForServer
+// with a client that reports `reportedV`
+func c03RunOnce(isRef bool, def, expectedV, reportedV vsx) vsx {
 	const name = "verif/c03"
 	tc := &conformancev1.TestCase{
 		Request:          &conformancev1.ClientCompatRequest{TestName: name, StreamType: conformancev1.StreamType(def.l[0].i)},
-		ExpectedResponse: c03Result(args[2]),
+		ExpectedResponse: c03Result(expectedV),
 	}
 	for _, c := range def.l[1].l {
 		tc.OtherAllowedErrorCodes = append(tc.OtherAllowedErrorCodes, conformancev1.Code(c.i))
 	}
-	reported := c03Result(args[3])
+	reported := c03Result(reportedV)
 	// what a reference client adds for the runner: feedback travels inside the result
 	// (any other client may fill the field in as well; the runner then has no use for it)
 	if reported.NumUnsentRequests%2 == 1 {
@@ -527,6 +532,43 @@ func verifC03Run(args []vsx) (res vsx) {
 		return vErr("test-case-altered")
 	}
 	return c03Outcome(results, name)
+}
+
+// c03.rundef: (reference-client def expected) -> the outcome recorded by the real
+// runTestCasesForServer for each probe of the model's def_probes: the expected result
+// reported with each error code 1..16 in turn (message and details of the expected error
+// kept), then with all its metadata as headers, then with all of it as trailers.  The
+// verdicts read back the definition that reached assert, as far as assert reads it: the
+// accepted codes (primary + other_allowed_error_codes) and whether the stream type allows
+// the merged form - whatever object the runner hands over.
+func verifC03RunDef(args []vsx) (res vsx) {
+	defer func() {
+		if r := recover(); r != nil {
+			if _, ok := r.(c03BadCase); ok {
+				res = vL(vS("bad-case"))
+				return
+			}
+			panic(r)
+		}
+	}()
+	isRef := args[0].boolean()
+	def, e := args[1], args[2]
+	if e.k != 'l' || len(e.l) != 6 {
+		return vL(vS("bad-case"))
+	}
+	msg, details := vL(), vL()
+	if len(e.l[3].l) == 1 {
+		msg, details = e.l[3].l[0].l[1], e.l[3].l[0].l[2]
+	}
+	var out []vsx
+	for c := int64(1); c <= 16; c++ {
+		probe := vL(e.l[0], e.l[1], e.l[2], vL(vL(vI(c), msg, details)), e.l[4], e.l[5])
+		out = append(out, c03RunOnce(isRef, def, e, probe))
+	}
+	all := vL(append(append([]vsx{}, e.l[0].l...), e.l[1].l...)...)
+	out = append(out, c03RunOnce(isRef, def, e, vL(all, vL(), e.l[2], e.l[3], e.l[4], e.l[5])))
+	out = append(out, c03RunOnce(isRef, def, e, vL(vL(), all, e.l[2], e.l[3], e.l[4], e.l[5])))
+	return vL(out...)
 }
 
 func verifC03Canon(args []vsx) vsx {
